@@ -33,18 +33,20 @@ pub struct Entry<T>(ptr::NonNull<Node<T>>);
 unsafe impl<T: Sync> Sync for Entry<T> {}
 
 impl<T> Entry<T> {
-    /// get the internal data mut ref
+    /// get the internal data mut ref, does nothing if the consumer has
+    /// popped the entry already: its data is gone then
     /// # Safety
     ///
-    /// must make sure it's not popped by the consumer
+    /// must make sure it's not popped by the consumer at the same time
     #[inline]
     pub unsafe fn with_mut_data<F>(&self, f: F)
     where
         F: FnOnce(&mut T),
     {
         let node = &mut *self.0.as_ptr();
-        let data = node.value.as_mut().expect("Node value is None");
-        f(data);
+        if let Some(data) = node.value.as_mut() {
+            f(data);
+        }
     }
 
     /// judge if the node is still linked in the list
